@@ -49,8 +49,13 @@ func (o *concObserver) ApplyConfig(conf config.Config) {
 
 // concChild runs inside the helper process. Exit status: 0 fine, 3 torn / stale state.
 func concChild(c ConcCase) int {
-	home := mkHome()
-	defer os.RemoveAll(home)
+	// the home lives inside the parent's scratch directory, which the parent removes
+	// even when this process is ended by the runtime or the race detector
+	home := filepath.Join(filepath.Dir(os.Getenv(specEnv)), "home")
+	if err := os.Mkdir(home, 0o755); err != nil {
+		fmt.Println("harness:", err)
+		return 4
+	}
 	path := filepath.Join(home, confName)
 
 	// every value a key ever has (trimmed, as GetValue reports it), plus "" (not loaded yet)
@@ -277,7 +282,7 @@ var (
 
 var concSpec = pbt.Register(pbt.Spec[ConcCase]{
 	Prop: "C18", Name: "concurrent-getters",
-	Rule: "3-8 versions of a file over 2-5 keys; a child process (this binary, built with -race) creates the configuration on version 0, starts 4 readers spinning over GetValue + one of GetValueDef/GetBoolean/GetInt/GetLong/GetFloat/GetIntSet/GetStringArray/GetKeys per key, then writes and reloads every later version while the readers run (optionally with an observer that calls getters inside the notification); violation = race-detector report, runtime fatal error, hang, a GetValue result that no version of the key ever had, or the last version not visible at quiescence; non-trivial = at least 2 reloads and every reader completed at least 2 rounds per reload",
+	Rule:  "3-8 versions of a file over 2-5 keys; a child process (this binary, built with -race) creates the configuration on version 0, starts 4 readers spinning over GetValue + one of GetValueDef/GetBoolean/GetInt/GetLong/GetFloat/GetIntSet/GetStringArray/GetKeys per key, then writes and reloads every later version while the readers run (optionally with an observer that calls getters inside the notification); violation = race-detector report, runtime fatal error, hang, a GetValue result that no version of the key ever had, or the last version not visible at quiescence; non-trivial = at least 2 reloads and every reader completed at least 2 rounds per reload",
 	Quick: 96, Thorough: 3200,
 	Draw: drawConc, Run: runConc,
 })
